@@ -680,6 +680,42 @@ func runC18(c *core.Ctx) {
 			})
 		}
 	}
+	// requests that carry no logout response at all: nothing to validate is not "valid"
+	c.Group("requests-without-a-logout-response")
+	type bare struct {
+		name, method, query, body string
+	}
+	for _, b := range []bare{{"bare-GET", "GET", "", ""}, {"GET-empty-SAMLResponse", "GET", "SAMLResponse=", ""}, {"GET-RelayState-only", "GET", "RelayState=x", ""}, {"GET-SAMLRequest-only", "GET", "SAMLRequest=abc", ""},
+		{"empty-POST", "POST", "", ""}, {"POST-empty-SAMLResponse", "POST", "", "SAMLResponse="}, {"POST-RelayState-only", "POST", "", "RelayState=x"}, {"POST-SAMLRequest-only", "POST", "", "SAMLRequest=abc"},
+		{"POST-blank-SAMLResponse", "POST", "", "SAMLResponse=+"}, {"POST-body-empty-query-empty-SAMLResponse", "POST", "SAMLResponse=", "x=y"}, {"HEAD", "HEAD", "", ""}, {"PUT-empty", "PUT", "", ""}} {
+		for _, tr := range trusts {
+			b, tr := b, tr
+			c.Case("no-response/"+b.name+"/trust="+tr, func(t *core.T) {
+				t.NonTrivial()
+				target := samlgen.SPSlo
+				if b.query != "" {
+					target += "?" + b.query
+				}
+				r := httptest.NewRequest(b.method, target, strings.NewReader(b.body))
+				if b.method == "POST" || b.method == "PUT" {
+					r.Header.Set("Content-Type", "application/x-www-form-urlencoded")
+				}
+				var err error
+				_, p := guard(func() error { err = sps[tr].ValidateLogoutResponseRequest(r); return nil })
+				t.Impl(1)
+				if p != "" {
+					t.Fail("C18/request/panic@"+p[strings.LastIndex(p, "@")+1:], "panicked: %s", p)
+					return
+				}
+				t.Modelled(core.MustReject)
+				t.Compared()
+				t.Outcome(fmt.Sprint(err == nil))
+				if err == nil {
+					t.Fail("C18/request/reports-valid/no-logout-response-in-the-request", "%s %s (body %q) carries no logout response and was reported valid", b.method, target, b.body)
+				}
+			})
+		}
+	}
 	_ = http.MethodGet
 }
 
